@@ -537,3 +537,58 @@ Proof.
   - left. rewrite Cf in Td. split; [eapply plag_nonempty; [apply (ts_lag _ T)|exact Ne]|eapply tdec_mono; [apply (ts_lag _ T)|exact Td]].
   - right. exact (sf_cache _ SF _ Hcs F).
 Qed.
+
+(* ------------------------------------------------------------------ the repair branch of F18 is not reached for a settled experiment *)
+
+Definition is_sug_status (x : write * onfail) : bool := match fst x with WSugStatus _ _ => true | _ => false end.
+
+Lemma no_sugstatus_status_write e st : existsb is_sug_status (status_write e st) = false.
+Proof. unfold status_write. destruct (estatus_eqb _ _); reflexivity. Qed.
+
+(* ReconcileExperiment (the non-completed path) writes a suggestion status -- the restart of a Succeeded suggestion -- only when
+   the status recomputed from the caches has no verdict and the cached suggestion has not failed *)
+Lemma reconcile_no_sug_status w e st1 :
+  e_completed st1 = true \/ justified w (e_max e) -> existsb is_sug_status (plan_exp_reconcile w e st1) = false.
+Proof.
+  intro J. unfold plan_exp_reconcile, justified in *.
+  assert (PC : forall st2 ts, (exists cs, c_sug w = Some cs /\ sfailed (s_st cs) = true) ->
+            existsb is_sug_status (fst (plan_trials (w_cfg w) (e_max e) st2 ts (c_sug w))) = false).
+  { intros st2 ts (cs&Hcs&F). unfold plan_trials. destruct (_ <? _); [reflexivity|]. destruct (_ <? _); [|reflexivity]. destruct (0 <? _); [|reflexivity].
+    unfold plan_create. rewrite Hcs. unfold sfailed in F. rewrite F. reflexivity. }
+  destruct (c_trials w) as [|t0 ts'] eqn:Ets.
+  - destruct (e_completed st1) eqn:C1; [apply no_sugstatus_status_write|].
+    destruct (plan_trials (w_cfg w) (e_max e) st1 [] (c_sug w)) as [ws2 st3] eqn:PT.
+    apply existsb_app_false; [|apply no_sugstatus_status_write].
+    destruct J as [J|[(Ne&_)|SF]]; [discriminate|contradiction|].
+    assert (E2 : ws2 = fst (plan_trials (w_cfg w) (e_max e) st1 [] (c_sug w))) by now rewrite PT. rewrite E2. now apply PC.
+  - set (ts := t0 :: ts') in *.
+    destruct (e_completed (update_status (w_cfg w) (e_max e) (w_clock w) st1 ts)) eqn:C2; [apply no_sugstatus_status_write|].
+    destruct (plan_trials (w_cfg w) (e_max e) (update_status (w_cfg w) (e_max e) (w_clock w) st1 ts) ts (c_sug w)) as [ws2 st3] eqn:PT.
+    apply existsb_app_false; [|apply no_sugstatus_status_write].
+    assert (NC1 : e_completed st1 = false).
+    { destruct (e_completed st1) eqn:C1; [|reflexivity]. exfalso.
+      unfold update_status in C2. destruct (scan_best _ _ _ _ _) as [best reached].
+      match type of C2 with context [if ?c then _ else _] => assert (X : c = true) by exact C1; rewrite X in C2 end.
+      unfold e_completed, e_is in *. cbn [es_conds] in C2. congruence. }
+    assert (SF : sugfail w).
+    { destruct J as [J|[(Ne&Td)|SF]]; [congruence| |exact SF]. exfalso.
+      rewrite update_status_completed in C2 by exact NC1. congruence. }
+    assert (E2 : ws2 = fst (plan_trials (w_cfg w) (e_max e) (update_status (w_cfg w) (e_max e) (w_clock w) st1 ts) ts (c_sug w))) by now rewrite PT.
+    rewrite E2. now apply PC.
+Qed.
+
+(* Over runs: in a reachable state whose stored experiment carries a settled verdict, an experiment reconcile -- whatever it
+   reads from its caches -- does not take the repair branch (it plans no suggestion-status write from ReconcileExperiment):
+   the suggestion of a completed experiment is not resurrected. *)
+Theorem repair_branch_not_for_settled c acts ce st1 e :
+  valid_cfg c -> no_teardown acts ->
+  w_exp (run c acts) = Some e -> e_completed (e_st e) = true -> restart_enabled_e c e = false ->
+  c_exp (run c acts) = Some ce ->
+  existsb is_sug_status (plan_exp_reconcile (run c acts) ce st1) = false.
+Proof.
+  intros V NT He C R Hce. destruct (all_invs c acts V NT) as ([I _]&_&_&_&N).
+  assert (Cf : w_cfg (run c acts) = c) by (unfold run; now rewrite run_cfg).
+  apply reconcile_no_sug_status. right.
+  destruct (i_exp _ I) as (e0&ce0&He0&Hce0&L&_). rewrite He in He0. inversion He0; subst e0. rewrite Hce in Hce0. inversion Hce0; subst ce0.
+  eapply justified_max_le; [destruct L as (_&_&M); exact M|]. eapply (nc_v _ N); eauto. split; [exact C|now rewrite Cf].
+Qed.
